@@ -31,6 +31,13 @@ def bind_names(parse_fn):
             if r is not None and r.get('k') in ('ctor', 'initlist') and len(r.get('args', [])) == 2:
                 a0 = [e for e in walk(r['args'][0]) if e.get('k') == 'member' and is_this_member(e)]
                 a1 = [e for e in walk(r['args'][1]) if e.get('k') == 'member' and is_this_member(e)]
+                if not [e for e in a1 if e['name'] != ln]:
+                    # the offset may be computed by a helper of the parser (a clamp of the cursor): look into what it returns
+                    for c_ in walk(r['args'][1]):
+                        if c_.get('k') == 'call' and c_.get('cid') is not None and getattr(parse_fn, 'facts', None) is not None:
+                            g_ = parse_fn.facts.by_id.get(c_['cid'])
+                            if g_ is not None:
+                                a1 += [e for _b, _i, _s, e in g_.walk() if e.get('k') == 'member' and is_this_member(e)]
                 if a0:
                     err = a0[0]['name']
                 if a1:
@@ -321,6 +328,19 @@ def clause_e(facts, rep):
                 continue
             off = strip(r['args'][1])
             verdict = offset_bounded(off, pos, ln)
+            if verdict is None:
+                # any other spelling (a clamp helper, std::min through a local, ...): the expression is evaluated
+                # (sv/minterp.py) for cursor / limit pairs - it must never exceed the limit and must be the cursor when
+                # the cursor is inside the text
+                from ..minterp import Interp, Unsupported, UndefinedBehaviour
+                try:
+                    vals = []
+                    for p_, l_ in ((0, 0), (3, 5), (5, 5), (6, 5), (70, 5), (1, 0)):
+                        it_ = Interp(f, facts, call_hook=lambda e_, a_, env_, m_: (min(a_) if (e_.get('cname') == 'min' and len(a_) == 2 and all(isinstance(x, int) for x in a_)) else None))
+                        vals.append((p_, l_, it_.ev(off, {}, {pos: p_, ln: l_, 'err_': 1})))
+                    verdict = all(isinstance(v, int) and v <= l_ and (v == p_ if p_ <= l_ else True) for p_, l_, v in vals)
+                except (Unsupported, UndefinedBehaviour, KeyError, TypeError):
+                    verdict = None
             if verdict is None:
                 rep.require(False, 'C01.e: offset expression %s in %s not recognised' % (show(off), f.name))
             else:
@@ -651,6 +671,13 @@ def run(rep, tier):
         numvalue.clause(get_facts('K1'), rep, tier)
     except AnalysisBroken as ex:
         rep.broken.append(str(ex))
+    from .. import scaneval
+    try:
+        scaneval.clause(get_facts('K1'), rep, tier)      # white-space skipping with the cached bitmap, byte by byte (shared with C11)
+    except AnalysisBroken as ex:
+        rep.broken.append(str(ex))
+    rep.corroborate('E3.shift-range', 'E5.skip-extent')
+    rep.corroborate_floor('C11: cached-bitmap', 'E5.skip-extent')
     for r_ in ('E6.number', 'E2.digit-run'):
         rep.corroborate(r_, 'E5.number-value')
     rep.corroborate_floor('C01.b:', 'E5.number-value')
